@@ -419,6 +419,35 @@ def run(eng, R):
     R.rule("E13", "a mapping that the reader turns into a list (positional meaning) is written in the order of the object it describes: no sorting / set on the way", 1)
     check_order_carrying(eng, R, "E13")
 
+    # the implicit no-errors state is part of the fit: it is written as the default identifier the constructor turns back into that state
+    iw = p.find_class("FitYamlWriter").find_method("_make_representation")
+    isrc = common.src_of(iw.node)
+    R.ob("E5", "FitYamlWriter:implicit cost function", "if fit._implicit_no_errors: _cost_function_identifier = 'chi2'" in isrc, (iw.file, iw.lineno),
+         "a fit in the implicit no-errors state must be written with the default cost function identifier: written as 'chi2_no_errors' it comes back without the switch, "
+         "and uncertainties added to the reloaded fit are ignored")
+
+    # ---------------------------------------------------------------- E14: settings given to the fit constructor come back
+    R.rule("E14", "every setting a fit constructor stores on the fit (beyond data, model, cost function and minimizer, which have their own entries) is restored by the reader: "
+                  "passed to the constructor or assigned to the new object", 4)
+    rsrc = common.src_of(fr.node)
+    fwm = p.find_class("FitYamlWriter").find_method("_make_representation")
+    wsrc = common.src_of(fwm.node)
+    handled = {"self", "data", "xy_data", "model_function", "model_density_function", "cost_function", "minimizer", "minimizer_kwargs"}
+    n14 = 0
+    for cn in ("XYFit", "IndexedFit", "HistFit", "UnbinnedFit"):
+        ini = p.find_class(cn).find_method("__init__")
+        for a in ini.node.args.args:
+            q = a.arg
+            if q in handled:
+                continue
+            n14 += 1
+            restored = ("_fit_kwargs['%s']" % q) in rsrc or ("_fit_object.%s =" % q) in rsrc or ("_fit_object._%s =" % q) in rsrc
+            written = ("_yaml_doc['%s']" % q) in wsrc or any(("_yaml_doc['%s']" % q) in common.src_of(m.node) for m in [p.find_class("ParametricModelYamlWriter").find_method("_make_representation")])
+            R.ob("E14", "%s:%s" % (cn, q), restored and written, (fr.file, fr.lineno),
+                 "%s(%s=...) is stored on the fit but %s: a reloaded fit silently falls back to the default" % (cn, q, "not written to the file" if not written else "never restored by the reader"))
+    if n14 < 4:
+        raise AnalysisError("E14: constructor settings of the fit classes not found")
+
     # ---------------------------------------------------------------- E8
     src = common.src_of(fr.node)
     R.ob("E8", "FitYamlReader:param model", "_fit_object._param_model = _read_parametric_model" not in src or ("_on_error_change_callback = _fit_object._on_error_change" in src and "_fit_object._on_error_change()" in src),
